@@ -24,7 +24,15 @@ def build(r, leaf_str=False, via="ctor", style=0, memo=None, _root=True):
         if leaf_str and (r["lo"], r["hi"]) == (0, 1) and style != 1:
             return r["id"]
         cls = _leaf_subclass() if style == 1 else puan.variable
-        return cls(r["id"], (r["lo"], r["hi"]))
+        # the same declaration in the spellings the constructor documents (tuple / list / Bounds / single integer, dtype named or not)
+        lo, hi = r["lo"], r["hi"]
+        f = (sum(map(ord, str(r["id"]))) + 3 * lo + hi) % 5 if isinstance(lo, int) and isinstance(hi, int) else 0
+        if f == 1: return cls(r["id"], (lo, hi), dtype="int")
+        if f == 2: return cls(r["id"], [lo, hi])
+        if f == 3: return cls(r["id"], puan.Bounds(lo, hi))
+        if f == 4 and (lo, hi) == (0, 1): return cls(r["id"], dtype="bool")
+        if f == 4 and lo == hi: return cls(r["id"], lo)
+        return cls(r["id"], (lo, hi))
     args = [build(x, leaf_str, via, style, memo, False) for x in r["a"]]
     ident = r["id"] or None
     if ident is not None and r.get("f", -1) != -1 and via != "json":
